@@ -150,6 +150,28 @@ def check_target(case: typing.Any, ctx: Ctx) -> Info:
         res, ex = guarded(pydsdl.read_namespace, root, [], None, unreg, allowed=(pydsdl.InvalidDefinitionError,), what="read_namespace")
         written = {os.path.realpath(os.path.join(root, file_name(x, unreg))) for x in defs}
         error_path_ok = ex is None or (ex.path is not None and os.path.realpath(str(ex.path)) in written)
+        # "for every set of definitions" includes the set that the same files hold a moment later: some definitions are edited in place
+        # (sealing, extent, union-ness of a section - the file names stay) and the namespace is read again in the same process; the
+        # verdict must be that of the set as it is now, whatever was found out about these files before
+        edits = case.get("reread") or []
+        if edits and defs:
+            defs2 = [dict(x) for x in defs]
+            for idx, key, value in edits:
+                x2 = defs2[idx % len(defs2)]
+                if key in ("rsealed", "rsize", "runion") and not x2["service"]:
+                    key = key[1:]
+                x2[key] = [1, 2, 8][int(value) % 3] if key.endswith("size") else bool(int(value) % 2)
+            v2 = verdict(defs2, [])
+            for x1, x2 in zip(defs, defs2):
+                if x1 != x2:
+                    _write_def(root, file_name(x2, unreg), def_text(x2))
+            res2, ex2 = guarded(pydsdl.read_namespace, root, [], None, unreg, allowed=(pydsdl.InvalidDefinitionError,), what="read_namespace:after-edit")
+            where2 = "after editing in place: " + ", ".join(file_name(x, unreg) + ("{%s}" % def_text(x).replace("\n", ";")) for x in defs2) + " | before: " + ", ".join(def_text(x).replace("\n", ";") for x in defs)
+            if v2 is None:
+                require(ex2 is None, "conforming-set-rejected:after-edit", "accepted", "%s: %s" % (type(ex2).__name__, ex2), where2)
+                require(len(res2) == len(defs2), "conforming-set-size:after-edit", len(defs2), len(res2), where2)
+            else:
+                require(ex2 is not None, "violating-set-accepted:after-edit:" + v2, "InvalidDefinitionError (%s)" % v2, "accepted", where2)
     finally:
         ctx.cleanup(d)
     where = ("unregulated ports allowed: " if unreg else "") + ", ".join(file_name(x, unreg) + ("{%s}" % def_text(x).replace("\n", ";")) for x in defs)
@@ -320,7 +342,8 @@ def _defs(names: typing.List[str]) -> st.SearchStrategy:
 
 
 def parts(ctx: Ctx) -> typing.List[Part]:
-    target_cases = st.fixed_dictionaries({"defs": st.one_of(_defs(["A"]), _defs(["A", "B"]), _defs(["A", "B", "C"]), _defs(["A", "A/Request"]), _defs(["A", "A/Response", "A/Request", "B"])), "unregulated": st.sampled_from([False, False, True])})
+    target_cases = st.fixed_dictionaries({"defs": st.one_of(_defs(["A"]), _defs(["A", "B"]), _defs(["A", "B", "C"]), _defs(["A", "A/Request"]), _defs(["A", "A/Response", "A/Request", "B"])), "unregulated": st.sampled_from([False, False, True]),
+                                          "reread": st.one_of(st.none(), st.lists(st.tuples(st.integers(0, 7), st.sampled_from(["sealed", "rsealed", "size", "rsize", "union", "runion"]), st.integers(0, 5)).map(list), min_size=1, max_size=2))})
     lookup_cases = st.fixed_dictionaries(
         {"defs": st.one_of(_defs(["A"]), _defs(["A", "B"]), _defs(["A", "A/Response"])), "refs": st.lists(st.integers(0, 20), max_size=4), "api": st.sampled_from(["namespace", "files"])}
     )
